@@ -179,3 +179,50 @@ func VerifC04Registry() {
 		}
 	}
 }
+
+// C04, deletion of a named container whose alias domain has LAPSED: the committee registers mycnr.container
+// with a symbolic lifetime 1..1000 s, the container is put under that name, a symbolic time span 1..1.1*10^6 ms
+// passes (the domain may or may not have expired), the container is deleted. Whatever NNS answers about the
+// lapsed domain, a successful delete is complete and final: every getter reports not found, count is 0, one
+// DeleteSuccess, and the same blob can never be put again (plain or named).
+func VerifC04ExpiredAlias() {
+	vCommittee(1)
+	deployFS()
+	vAssume(alphaOn("netmap", "setConfig", []byte("id"), []byte("ContainerFee"), 0))
+	vAssume(alphaOn("netmap", "setConfig", []byte("id"), []byte("ContainerAliasFee"), 0))
+	owner := vAcct("owner")
+	life, span := vInt("domainLifetime"), vInt("timeSpan")
+	vAssume(life >= 1 && life <= 1000 && span >= 1 && span <= 1100000)
+	vSign(vCommitteeAcct(), true)
+	okd, rd := vInvoke("nns", "register", "mycnr.container", vCommitteeAcct(), "ops@nspcc.ru", 1, 2, life, 3)
+	vAssume(okd && rd.(bool))
+	blob := cnrBlob("c1", 0, owner)
+	id := vSha256(blob)
+	vSign(vAlphabetAcct(), true) // committee of 1: this is the committee account as well
+	ok, _ := vInvoke("container", "putNamed", blob, vBytes("sig", 64), vKey("owner"), []byte{}, "mycnr", "container")
+	vAssume(ok)
+	_, al := vRead("container", "alias", id)
+	vAssert(al != nil && al.(string) == "mycnr.container", "C04/alias-returns-the-name-set")
+	vAdvanceTime(span)
+	vSign(vAlphabetAcct(), true)
+	done, _ := vInvoke("container", "delete", id, vBytes("sig", 64), []byte{})
+	vRequire(done, "named-container-deleted")
+	vCoverIf(done && span >= life*1000, "deleted-after-the-alias-domain-expired")
+	if !done {
+		return
+	}
+	vAssert(len(vEvents("container", "DeleteSuccess")) == 1, "C04/one-DeleteSuccess-per-successful-delete")
+	okG, _ := vRead("container", "get", id)
+	okO, _ := vRead("container", "owner", id)
+	_, cnt := vRead("container", "count")
+	_, al = vRead("container", "alias", id)
+	vAssert(!okG && !okO && cnt.(int) == 0 && (al == nil || al.(string) == ""), "C04/getters-report-not-found-for-ids-that-are-not-live")
+	vSign(vAlphabetAcct(), true)
+	again, _ := vInvoke("container", "put", blob, vBytes("sig", 64), vKey("owner"), []byte{})
+	vAssert(!again, "C04/a-deleted-id-can-never-be-registered-again")
+	vSign(vAlphabetAcct(), true)
+	again, _ = vInvoke("container", "putNamed", blob, vBytes("sig", 64), vKey("owner"), []byte{}, "other", "container")
+	vAssert(!again, "C04/a-deleted-id-can-never-be-registered-again")
+	okG, _ = vRead("container", "get", id)
+	vAssert(!okG, "C04/a-deleted-id-can-never-be-registered-again")
+}
